@@ -1,8 +1,8 @@
 use ckb_async_runtime::tokio::{self, task::block_in_place};
 use ckb_logger::{debug, info, warn};
-use ckb_shared::Shared;
+use ckb_shared::{Shared, Snapshot};
 use ckb_stop_handler::{CancellationToken, new_tokio_exit_rx};
-use ckb_store::{ChainDB, ChainStore};
+use ckb_store::ChainStore;
 use ckb_types::{
     core::HeaderView,
     packed::{Byte32, CellOutput, OutPoint},
@@ -17,11 +17,11 @@ pub struct BlockFilter {
     shared: Shared,
 }
 
-struct WrappedChainDB<'a> {
-    inner: &'a ChainDB,
+struct WrappedChainDB<'a, S> {
+    inner: &'a S,
 }
 
-impl<'a> FilterDataProvider for WrappedChainDB<'a> {
+impl<'a, S: ChainStore> FilterDataProvider for WrappedChainDB<'a, S> {
     fn cell(&self, out_point: &OutPoint) -> Option<CellOutput> {
         self.inner
             .get_transaction(&out_point.tx_hash())
@@ -29,8 +29,8 @@ impl<'a> FilterDataProvider for WrappedChainDB<'a> {
     }
 }
 
-impl<'a> WrappedChainDB<'a> {
-    fn new(inner: &'a ChainDB) -> Self {
+impl<'a, S: ChainStore> WrappedChainDB<'a, S> {
+    fn new(inner: &'a S) -> Self {
         Self { inner }
     }
 }
@@ -119,11 +119,11 @@ impl BlockFilter {
             let header = snapshot
                 .get_block_header(&block_hash)
                 .expect("header stored");
-            self.build_filter_data_for_block(&header);
+            self.build_filter_data_for_block(&snapshot, &header);
         }
     }
 
-    fn build_filter_data_for_block(&self, header: &HeaderView) {
+    fn build_filter_data_for_block(&self, snapshot: &Snapshot, header: &HeaderView) {
         debug!(
             "Start building filter data for block: {}, hash: {:#x}",
             header.number(),
@@ -144,9 +144,12 @@ impl BlockFilter {
                 .expect("parent block filter data stored")
         };
 
-        let transactions = db.get_block_body(&header.hash());
+        // The block is on the chain of `snapshot`; the cells its inputs spend are looked up there.
+        // The live store may have been reorganised since the pass began, and the transactions
+        // of detached blocks can no longer be found in it.
+        let transactions = snapshot.get_block_body(&header.hash());
         let transactions_size: usize = transactions.iter().map(|tx| tx.data().total_size()).sum();
-        let provider = WrappedChainDB::new(db);
+        let provider = WrappedChainDB::new(snapshot);
         let (filter_data, missing_out_points) = build_filter_data(provider, &transactions);
         for out_point in missing_out_points {
             warn!(
